@@ -1530,20 +1530,24 @@ def _is_sentinel(cx, fi, fl, e):
 READ_ONLY_METHODS = ('get', 'keys', 'values', 'items', 'copy', '__contains__', '__getitem__', '__len__', '__iter__')
 
 
-def _changed_since(cx, fi, names, lookup_stmts, stamp):
-    """The first thing on a path from one of ``lookup_stmts`` to the stamp that can change the cookie's entries -- a call of
-    next() (the endpoint), a write of the middleware to the cookie, a call the cookie is handed to or a method of it that
-    is not a plain read; None when there is nothing of the kind."""
+def _changed_since(cx, fi, names, lookup_stmts, stamp, ignore=(), avoid=()):
+    """The first thing on a path from one of ``lookup_stmts`` to the statement ``stamp`` (paths through the statements ``avoid``
+    do not count) that can change the cookie's entries -- a call of next() (the endpoint), a write of the middleware to the cookie
+    (other than the statements ``ignore``), a call the cookie is handed to or a method of it that is not a plain read; None
+    when there is nothing of the kind."""
     cfg = cfg_of(fi)
     stamp_nodes = set(cfg.nodes_of(stamp))
+    blocked = set(cfg.nodes_of_all(list(avoid))) - stamp_nodes
     srcs = [m for st in lookup_stmts for n in cfg.nodes_of(st) for m in cfg.succ[n]]
-    region = (cfg.reach(srcs) & cfg.coreach(stamp_nodes)) - stamp_nodes
-    writes = set(id(st) for _, st in _cookie_writes(fi, names))
+    region = (cfg.reach(srcs, avoid=blocked) & cfg.coreach(stamp_nodes, avoid=blocked)) - stamp_nodes
+    writes = set(id(st) for _, st in _cookie_writes(fi, names)) - set(id(st) for st in ignore)
     for nid in sorted(region):
         nd = cfg.nodes[nid]
         if nd.kind not in ('stmt', 'head') or nd.stmt is None:
             continue
         st = nd.stmt
+        if nd.kind == 'stmt' and any(st is x for x in ignore):
+            continue
         if nd.kind == 'stmt' and id(st) in writes:
             return st
         hosts = [st] if nd.kind == 'stmt' else [x for x in ([getattr(st, f, None) for f in ('test', 'iter')] +
@@ -1900,7 +1904,7 @@ def rule_g(rep, cx):
     ck, ju, rq = cx.ck, cx.ju, cx.rq
     rep.rule('R16.g', 'one cookie object, unchanged: unserialize returns the verified cookie or an empty one and does not write to it; request() '
                       'provides and saves the object load_cookie returned, stores nothing in it but the expiry stamp after the endpoint, and takes '
-                      'neither the stamp nor the signed expiry from the request')
+                      'neither the stamp nor the signed expiry from the request; the expiry it has save_cookie sign is the cookie\'s own entry')
     # -- JSONCookie.unserialize
     fl = Flow(ju)
     sc = cx.sup_calls[0]
@@ -1982,7 +1986,69 @@ def rule_g(rep, cx):
         rep.check('R16.g', fkey(rq, 'signed expiry'), not t, 'the expiry handed to save_cookie (signed into the cookie as _expires) comes from the cookie / the configuration'
                   if not t else 'save_cookie(%s=%s): the expiry the dependency signs into the cookie is taken from the request'
                   % (t[0][0], short(t[0][1], 40)), ck, c)
+        # ... and it is the cookie's own entry: the dependency's serialize(expires) overwrites cookie['_expires'] with whatever it is
+        # given, so anything else replaces an expiry the application set (set_expires(NOW) to end a session) by the middleware's own
+        foreign = []
+        for nm, e, lat in srcs:
+            if nm == '**' or not isinstance(e, ast.AST) or lat is None:
+                continue
+            for lf in fl.leaves(e, lat, list(conds(rq, lat))):
+                if lf.opaque and not isinstance(lf.value, (ast.Subscript, ast.Call, ast.Constant)):
+                    raise AnalysisError('SignedCookieMiddleware.request: the value handed to save_cookie as %s (%s) is not followed' % (nm, short(lf.value, 40)))
+                if not _own_expiry(cx, rq, fl, e, lf.value, lf, names):
+                    foreign.append((nm, lf.value, None))
+                elif lf.stmt is not None and any(_expiry_read(cx, x, names) for x in ast.walk(lf.value)):
+                    # the entry as it is when the cookie is saved: read after the endpoint ran (the stamp only fills an entry that is absent)
+                    others = [d.stmt for d in fl.defs.get(e.id, []) if d.stmt is not None and d.stmt is not lf.stmt] if isinstance(e, ast.Name) else []
+                    ch = _changed_since(cx, rq, names, [lf.stmt], at, ignore=stamps, avoid=others)
+                    if ch is not None:
+                        foreign.append((nm, lf.value, ch))
+        rep.check('R16.g', fkey(rq, 'signed expiry is the cookie\'s own'), not foreign,
+                  'what save_cookie is told to sign as the expiry is the _expires entry the cookie holds (stamped or set by the application), or nothing'
+                  if not foreign else
+                  'save_cookie(%s=%s): the dependency stores this into cookie[\'_expires\'] before signing, whatever the entry holds%s -- an expiry the '
+                  'application set in the endpoint (set_expires(NOW) to invalidate the cookie) is replaced and the data stays valid'
+                  % (foreign[0][0], short(foreign[0][1], 40), '' if foreign[0][2] is None else
+                     ', and the entry was read before %s ran' % short(foreign[0][2], 40)), ck, c)
     rep.floor('R16.g', 4)
+
+
+def _expiry_read(cx, x, names):
+    """``cookie['_expires']`` / ``cookie.get('_expires', ..)``."""
+    if isinstance(x, ast.Subscript):
+        return norm(x.value) in names and cx.fold(x.slice) == EXPIRES
+    return isinstance(x, ast.Call) and isinstance(x.func, ast.Attribute) and x.func.attr == 'get' and norm(x.func.value) in names and \
+        bool(x.args) and cx.fold(x.args[0]) == EXPIRES
+
+
+def _own_expiry(cx, fi, fl, use, v, lf, names):
+    """The value ``v`` (a leaf of the expression ``use`` handed to save_cookie as the expiry to sign) is the cookie's own expiry
+    entry: a lookup of it (``cookie['_expires']``, ``cookie.get('_expires'[, None])``; with a sentinel default only where the path
+    conditions exclude the sentinel), the value a chained assignment stores into the entry at the same time, a false constant (the
+    dependency then leaves the entry alone) -- or anything at all where the path conditions say the cookie has no entry."""
+    if isinstance(v, ast.BoolOp):
+        return all(_own_expiry(cx, fi, fl, use, x, lf, names) for x in v.values)
+    if isinstance(v, ast.Constant) and not v.value:
+        return True
+    if isinstance(v, ast.Subscript) and norm(v.value) in names and cx.fold(v.slice) == EXPIRES:
+        return True
+    if isinstance(v, ast.Call) and isinstance(v.func, ast.Attribute) and v.func.attr == 'get' and norm(v.func.value) in names \
+            and not any(isinstance(a, ast.Starred) for a in v.args) and not any(k.arg is None for k in v.keywords):
+        k, d = argn(v, 'key', 0), argn(v, 'default', 1)
+        if k is not None and cx.fold(k) == EXPIRES:
+            if d is None or (isinstance(d, ast.Constant) and not d.value):
+                return True
+            if _is_sentinel(cx, fi, fl, d):
+                for t, p in lf.conds:
+                    if isinstance(t, ast.Compare) and len(t.ops) == 1 and isinstance(t.ops[0], (ast.Is, ast.IsNot)) and isinstance(t.ops[0], ast.IsNot) is p:
+                        sides = [t.left, t.comparators[0]]
+                        if any(isinstance(x, ast.Name) and x.id == d.id for x in sides) and any(norm(x) in (norm(use), norm(v)) for x in sides):
+                            return True
+    st = lf.stmt
+    if isinstance(st, ast.Assign) and st.value is v and any(isinstance(t, ast.Subscript) and norm(t.value) in names and cx.fold(t.slice) == EXPIRES
+                                                            for t in st.targets):
+        return True
+    return any(_absent_cond(cx, fi, fl, t, p, names) is not None for t, p in lf.conds)
 
 
 # ---------------------------------------------------------------------------------------------- R16.h
